@@ -425,8 +425,48 @@ def rule_cursor_discipline(prog, fixture=False):
             continue
         g = Guards(fn)
         for cd, ld, cn, lnm in pairs:
+            # the length may be derived from an end pointer in every pass: len = end - p
+            end_d = None
+            defs = [v["c"][0] for v in fn.walk() if v.get("k") == "VarDecl" and v.get("d") == ld and v.get("c")]
+            defs += [x["c"][1] for x in fn.walk() if x.get("k") == "BinaryOperator" and x.get("op") == "=" and
+                     (strip_all(x["c"][0]) or {}).get("d") == ld]
+            ends = set()
+            for d_ in defs:
+                e_ = strip_all(d_)
+                while e_ is not None and e_.get("k") in ("CStyleCastExpr", "CXXStaticCastExpr") and e_.get("c"):
+                    e_ = strip_all(e_["c"][0])
+                if e_ is not None and e_.get("k") == "BinaryOperator" and e_.get("op") == "-" and \
+                        (strip_all(e_["c"][1]) or {}).get("d") == cd and (strip_all(e_["c"][0]) or {}).get("k") == "DeclRefExpr":
+                    ends.add(strip_all(e_["c"][0])["d"])
+                else:
+                    ends.add(None)
+            other_len_writes = [x for x in fn.walk() if x.get("k") in ("UnaryOperator", "CompoundAssignOperator") and
+                                x.get("op") in ("++", "--", "+=", "-=") and (strip_all(x["c"][0]) or {}).get("d") == ld]
+            if defs and len(ends) == 1 and None not in ends and not other_len_writes:
+                e0 = next(iter(ends))
+                if not any(d2 == e0 for x in fn.walk() for d2, _ in flow.written_decls(x) if x.get("k") not in ("VarDecl", "DeclStmt")):
+                    end_d = e0
             k = 0
             for n in fn.walk():
+                if end_d is not None and n.get("k") == "UnaryOperator" and n.get("op") == "*":
+                    inner = strip_all(n["c"][0])
+                    if inner.get("k") == "UnaryOperator" and inner.get("op") in ("++", "--"):
+                        inner = strip_all(inner["c"][0])
+                    if inner.get("k") == "DeclRefExpr" and inner.get("d") == cd:
+                        k += 1
+                        # `*p++`: the facts that matter are those before the increment
+                        probe = strip_all(n["c"][0]) if (strip_all(n["c"][0]) or {}).get("op") in ("++", "--") else n
+                        cm = (g.cmps(probe) or []) + (g.cmps(n) or [])
+                        ok = any(rel in ("!=", "<") and {(strip_all(l) or {}).get("d"), (strip_all(rr) or {}).get("d")} == {cd, end_d}
+                                 for l, rel, rr in cm) or \
+                            any(rel == ">" and (strip_all(l) or {}).get("d") == end_d and (strip_all(rr) or {}).get("d") == cd
+                                for l, rel, rr in cm)
+                        key = "%s::%s::read#%d(*%s)" % (fn.relfile(), fn.qn, k, cn)
+                        r.add(key, fn.loc(n), ok, "guarded by %s != end" % cn if ok else
+                              "`%s` reads a byte of the line without a dominating check that the cursor has not reached the end" % show(n))
+                    continue
+                if end_d is not None:
+                    continue
                 if n.get("k") == "UnaryOperator" and n.get("op") == "*":
                     inner = strip_all(n["c"][0])
                     if inner.get("k") == "UnaryOperator" and inner.get("op") in ("++", "--"):
@@ -446,7 +486,7 @@ def rule_cursor_discipline(prog, fixture=False):
                         key = "%s::%s::read#%d(*%s)" % (fn.relfile(), fn.qn, k, cn)
                         r.add(key, fn.loc(n), ok, "guarded by %s != 0" % lnm if ok else
                               "`%s` reads a byte of the line without a dominating check that `%s` is non-zero" % (show(n), lnm))
-            for bid in fn.cfg.reachable():
+            for bid in (fn.cfg.reachable() if end_d is None else []):
                 dc = dl = 0
                 first = None
                 for n in flow.element_nodes(fn, bid):
